@@ -1,5 +1,370 @@
 ------------------------------- MODULE JudgeInst -------------------------------
-EXTENDS JudgeFn
-InstEvents == {}
-ClausesInst(e) == [ known_event |-> FALSE ]
+(* Named clauses for instance-level events (C03-C06, C09-C15). *)
+EXTENDS Inst
+InstEvents == {"evaluate", "inst_partial", "inst_subst", "relax", "restore", "as_min", "commute",
+               "penalty", "uniform_penalty", "to_parametric", "with_parameters", "log_encode",
+               "slack_convert", "slack_add", "evaluate_samples", "best", "pubo", "qubo", "deps_order", "used_ids"}
+IsErr(e) == e.out.tag = "err"
+HasPost(e) == "post" \in DOMAIN e.out
+
+\* ---- C05 : evaluate ----------------------------------------------------------------------------
+\* comparison of a recorded solution with the reference solution
+SolClauses(raw, st, sol, pfx) ==
+  LET want == SolOf(raw, st)  got == SolSeen(sol)  I == AbsI(raw)
+      rs == got.state
+      depfree == DOMAIN st \cap DepIds(raw) = {} /\ FixedIds(I) \cap DepIds(raw) = {} IN
+  [ objective        |-> got.objective = want.objective,
+    constraints_bag  |-> got.cons = want.cons /\ got.ncons = Cardinality(want.cons),
+    feasible_relaxed |-> got.relaxed = << want.relaxed >>,
+    feasible         |-> got.feasible = want.feasible,
+    state_present    |-> sol.state # <<>>,
+    state_domain     |-> sol.state # <<>> => DOMAIN rs = DOMAIN st \cup DOMAIN I.vars \cup DepIds(raw),
+    state_given      |-> sol.state # <<>> => \A v \in (DOMAIN st \ (FixedIds(I) \cup DepIds(raw))) \cap DOMAIN rs : rs[v] = st[v],
+    state_fixed      |-> sol.state # <<>> => \A v \in (FixedIds(I) \ DepIds(raw)) \cap DOMAIN rs : rs[v] = I.vars[v].fixed[1],
+    state_dependent  |-> (sol.state # <<>> /\ depfree) => \A d \in DepIds(raw) \cap DOMAIN rs : rs[d] = want.state[d],
+    state_irrelevant |-> sol.state # <<>> => \A v \in (DOMAIN I.vars \ (DOMAIN st \cup FixedIds(I) \cup DepIds(raw))) \cap DOMAIN rs :
+                                                rs[v] = NearestToZero(EffBound(I.vars[v])),
+    vars_listed      |-> { sol.vars[i] : i \in DOMAIN sol.vars } = { raw.vars[i] : i \in DOMAIN raw.vars } ]
+AllTrue(r) == \A k \in DOMAIN r : r[k]
+ClausesEvaluate(e) ==
+  LET raw == e.in.inst  st == St(e.in.st) IN
+  IF ~ValidInst(raw) THEN [ no_panic |-> NoPanic(e) ]
+  ELSE IF ~Ok(e) THEN [ no_panic |-> NoPanic(e), reject_iff |-> IsErr(e) /\ SolRejects(raw, st) ]
+  ELSE IF SolRejects(raw, st) THEN [ no_panic |-> TRUE, reject_iff |-> FALSE ]
+  ELSE [ no_panic |-> TRUE, reject_iff |-> TRUE ] @@ SolClauses(raw, st, e.out.sol, "")
+
+\* ---- C03 : partial evaluation of an instance ----------------------------------------------------
+SameExceptFns(I, J) == /\ I.sense = J.sense /\ I.active = J.active /\ I.removed = J.removed
+                       /\ I.params = J.params /\ I.hints = J.hints /\ DOMAIN I.cons = DOMAIN J.cons
+                       /\ \A c \in DOMAIN I.cons : I.cons[c].eq = J.cons[c].eq /\ I.cons[c].meta = J.cons[c].meta
+                       /\ I.parameters = J.parameters
+ClausesInstPartial(e) ==
+  LET pre == e.in.inst  s == St(e.in.st)  I == AbsI(pre) IN
+  IF ~Ok(e) \/ ~HasPost(e) THEN [ no_panic |-> NoPanic(e), no_error |-> FALSE ]
+  ELSE LET post == e.out.post  J == AbsI(post)  W == PartialEvaluate(I, s)  got == SeqToSet(e.out.ids) IN
+  [ no_panic  |-> TRUE,
+    objective |-> J.obj = W.obj,
+    constraints |-> DOMAIN J.cons = DOMAIN W.cons /\ \A c \in DOMAIN W.cons \cap DOMAIN J.cons : J.cons[c].f = W.cons[c].f,
+    dependencies |-> J.deps = W.deps,
+    no_fixed_mentioned |-> AllFnIdsRaw(post) \cap DOMAIN s = {},
+    fixed_recorded |-> J.vars = W.vars,
+    rest_unchanged |-> SameExceptFns(I, J),
+    ids |-> /\ got \subseteq AllFnIdsRaw(pre) \cap DOMAIN s
+            /\ (DOMAIN s \cap (Ids(I.obj) \cup UNION { Ids(I.cons[c].f) : c \in DOMAIN I.cons } \cup UNION { Ids(I.deps[d]) : d \in DOMAIN I.deps })) \subseteq got ]
+
+\* the end-to-end statement, on the recorded solutions themselves (no reference semantics involved)
+View(r) == IF r.tag # "ok" THEN [ok |-> FALSE]
+           ELSE LET g == SolSeen(r.sol) IN [ok |-> TRUE, objective |-> g.objective, cons |-> { [id |-> c.id, eq |-> c.eq, value |-> c.value, meta |-> c.meta, removed_reason |-> c.removed_reason, rparams |-> c.rparams] : c \in g.cons },
+                                           relaxed |-> g.relaxed, feasible |-> g.feasible, state |-> g.state]
+ClausesCommute(e) ==
+  IF ~Ok(e) THEN [ no_panic |-> NoPanic(e) ]
+  ELSE LET a == View(e.out.full)  b == View(e.out.rest)  c == View(e.out.rest2) IN
+  [ no_panic |-> TRUE,
+    views_equal |-> a.ok => (b.ok /\ a = b),
+    two_step_equal |-> a.ok => (c.ok /\ a = c),
+    two_step_instance |-> (e.out.two.tag = "ok" /\ e.out.pe.tag = "ok") => AbsI(e.out.two.post) = AbsI(e.out.post) ]
+
+\* ---- C04 : substitution in an instance -----------------------------------------------------------
+ClausesInstSubst(e) ==
+  LET pre == e.in.inst  I == AbsI(pre)  r == ReplFun(e.in.repl) IN
+  IF ~Ok(e) \/ ~HasPost(e) THEN [ no_panic |-> NoPanic(e), no_error |-> FALSE ]
+  ELSE LET J == AbsI(e.out.post)  W == Substitute(I, r) IN
+  [ no_panic |-> TRUE,
+    subst_objective |-> J.obj = W.obj,
+    subst_constraints |-> DOMAIN J.cons = DOMAIN W.cons /\ \A c \in DOMAIN W.cons \cap DOMAIN J.cons : J.cons[c].f = W.cons[c].f,
+    deps_recorded |-> J.deps = W.deps,
+    rest_unchanged |-> SameExceptFns(I, J) /\ J.vars = I.vars ]
+\* every observed iteration order of the dependency map gives the reference result
+ClausesDepsOrder(e) ==
+  LET raw == e.in.inst  st == St(e.in.st)  rej == SolRejects(raw, st) IN
+  IF ~Ok(e) THEN [ no_panic |-> NoPanic(e) ]
+  ELSE
+  [ no_panic |-> \A i \in DOMAIN e.out.runs : e.out.runs[i].r.tag \in {"ok", "err"},
+    fails_cleanly |-> \A i \in DOMAIN e.out.runs : (e.out.runs[i].r.tag = "err") <=> rej,
+    schedule_result |-> ~rej => \A i \in DOMAIN e.out.runs :
+        LET r == e.out.runs[i].r IN
+        r.tag = "ok" => (r.state # <<>> /\ \A d \in DepIds(raw) : d \in PairIds(r.state[1]) /\ PairFun(r.state[1])[d] = SolOf(raw, st).state[d]),
+    some_run |-> Len(e.out.runs) >= 1 ]
+
+\* ---- C14 : relax / restore -------------------------------------------------------------------------
+ClausesRelax(e) ==
+  LET pre == e.in.inst  I == AbsI(pre)  c == e.in.cid  known == c \in I.active IN
+  IF ~HasPost(e) THEN [ no_panic |-> NoPanic(e) ]
+  ELSE LET J == AbsI(e.out.post) IN
+  [ no_panic |-> NoPanic(e),
+    error_iff_not_in_list |-> IsErr(e) <=> ~known,
+    unchanged_on_error |-> IsErr(e) => e.out.post = pre,
+    moved_only |-> Ok(e) => J = Relax(I, c, e.in.reason, e.in.rparams),
+    exactly_one_list |-> UniqueConIds(e.out.post) ]
+ClausesRestore(e) ==
+  LET pre == e.in.inst  I == AbsI(pre)  c == e.in.cid  known == c \in DOMAIN I.removed IN
+  IF ~HasPost(e) THEN [ no_panic |-> NoPanic(e) ]
+  ELSE LET J == AbsI(e.out.post) IN
+  [ no_panic |-> NoPanic(e),
+    error_iff_not_in_list |-> IsErr(e) <=> ~known,
+    unchanged_on_error |-> IsErr(e) => e.out.post = pre,
+    moved_only |-> Ok(e) => J = Restore(I, c),
+    exactly_one_list |-> UniqueConIds(e.out.post) ]
+
+\* ---- C15 : as_minimization_problem / best ---------------------------------------------------------
+ClausesAsMin(e) ==
+  IF ~Ok(e) \/ ~HasPost(e) THEN [ no_panic |-> NoPanic(e), no_error |-> FALSE ]
+  ELSE [ no_panic |-> TRUE, as_min |-> AbsI(e.out.post) = AsMin(AbsI(e.in.inst)) ]
+BoolMap(seq) == PairFun(seq)
+SvFun(sv) == LET ids == UNION { SeqToSet(sv[i].ids) : i \in DOMAIN sv } IN
+             [ s \in ids |-> sv[CHOOSE i \in DOMAIN sv : s \in SeqToSet(sv[i].ids)].value ]
+\* the SampleSet's feasibility tables, current and legacy layout (sample_set.proto)
+SSRelaxed(ss) == IF ss.feasible_relaxed = <<>> THEN BoolMap(ss.feasible) ELSE BoolMap(ss.feasible_relaxed)
+SSUnrelaxed(ss) == IF ss.feasible_relaxed = <<>> THEN BoolMap(ss.feasible_unrelaxed) ELSE BoolMap(ss.feasible)
+Better(sense, a, b) == IF sense = "max" THEN RLess(b, a) ELSE RLess(a, b)   \* a strictly better than b
+BestOK(ss, tab, r) ==
+  LET feas == { s \in DOMAIN tab : tab[s] }  obj == IF ss.objectives = <<>> THEN <<>> ELSE SvFun(ss.objectives[1]) IN
+  IF feas = {} THEN r.tag = "err"
+  ELSE /\ r.tag = "ok" /\ r.id \in feas /\ r.id \in DOMAIN obj
+       /\ \A s \in feas \cap DOMAIN obj : ~Better(ss.sense, obj[s], obj[r.id])
+ClausesBest(e) ==
+  LET ss == e.in.ss IN
+  IF ~Ok(e) THEN [ no_panic |-> NoPanic(e) ]
+  ELSE
+  [ no_panic |-> TRUE,
+    best_relaxed   |-> BestOK(ss, SSRelaxed(ss), e.out.relaxed),
+    best_unrelaxed |-> BestOK(ss, SSUnrelaxed(ss), e.out.unrelaxed),
+    feasible_ids   |-> /\ SeqToSet(e.out.feasible_ids) = { s \in DOMAIN SSRelaxed(ss) : SSRelaxed(ss)[s] }
+                       /\ SeqToSet(e.out.feasible_unrelaxed_ids) = { s \in DOMAIN SSUnrelaxed(ss) : SSUnrelaxed(ss)[s] } ]
+
+\* ---- C09 : penalty methods ------------------------------------------------------------------------
+ParamOf(J, c) == CHOOSE p \in DOMAIN J.parameters : J.parameters[p].subs = <<c>>
+ClausesPenalty(e) ==
+  LET pre == e.in.inst  I == AbsI(pre) IN
+  IF ~Ok(e) THEN [ no_panic |-> NoPanic(e), no_error |-> FALSE ]
+  ELSE LET J == AbsI(e.out.pinst)  P == DOMAIN J.parameters
+           tagged == \A c \in I.active : Cardinality({ p \in P : J.parameters[p].subs = <<c>> }) = 1 IN
+  [ no_panic |-> TRUE,
+    no_active |-> J.active = {},
+    all_constraints_kept |-> DOMAIN J.cons = DOMAIN I.cons /\ \A c \in DOMAIN I.cons \cap DOMAIN J.cons : J.cons[c] = I.cons[c],
+    removed_unchanged |-> \A c \in DOMAIN I.removed : c \in DOMAIN J.removed /\ J.removed[c] = I.removed[c],
+    param_tagged |-> tagged /\ Cardinality(P) = Cardinality(I.active),
+    param_fresh |-> /\ P \cap (DOMAIN I.vars \cup AllFnIdsRaw(pre)) = {}
+                    /\ Len(e.out.pinst.parameters) = Cardinality(P),
+    objective_identity |-> tagged => J.obj = PAdd(I.obj, PSumSet(I.active, LAMBDA c : PMul(PVar(ParamOf(J, c)), Sq(I.cons[c].f)))),
+    carried |-> J.vars = I.vars /\ J.sense = I.sense /\ J.deps = I.deps /\ J.hints = I.hints ]
+ClausesUniformPenalty(e) ==
+  LET pre == e.in.inst  I == AbsI(pre) IN
+  IF ~Ok(e) THEN [ no_panic |-> NoPanic(e), no_error |-> FALSE ]
+  ELSE LET J == AbsI(e.out.pinst)  P == DOMAIN J.parameters IN
+  [ no_panic |-> TRUE,
+    no_active |-> J.active = {},
+    all_constraints_kept |-> DOMAIN J.cons = DOMAIN I.cons /\ \A c \in DOMAIN I.cons \cap DOMAIN J.cons : J.cons[c] = I.cons[c],
+    removed_unchanged |-> \A c \in DOMAIN I.removed : c \in DOMAIN J.removed /\ J.removed[c] = I.removed[c],
+    param_fresh |-> Cardinality(P) = 1 /\ Len(e.out.pinst.parameters) = 1 /\ P \cap (DOMAIN I.vars \cup AllFnIdsRaw(pre)) = {},
+    objective_identity |-> Cardinality(P) = 1 =>
+        J.obj = PAdd(I.obj, PMul(PVar(CHOOSE p \in P : TRUE), PSumSet(I.active, LAMBDA c : Sq(I.cons[c].f)))),
+    carried |-> J.vars = I.vars /\ J.sense = I.sense /\ J.deps = I.deps /\ J.hints = I.hints ]
+
+\* ---- C10 : parameters --------------------------------------------------------------------------------
+ClausesToParametric(e) ==
+  IF ~Ok(e) THEN [ no_panic |-> NoPanic(e), no_error |-> FALSE ]
+  ELSE LET I == AbsI(e.in.inst)  J == AbsI(e.out.pinst) IN
+  [ no_panic |-> TRUE,
+    same_content |-> [J EXCEPT !.params = <<>>] = [I EXCEPT !.params = <<>>] /\ DOMAIN J.parameters = {} ]
+ClausesWithParameters(e) ==
+  LET pre == e.in.pinst  I == AbsI(pre)  pv == St(e.in.pv)  missing == ~(DOMAIN I.parameters \subseteq DOMAIN pv) IN
+  IF ~Ok(e) THEN [ no_panic |-> NoPanic(e), missing_is_error |-> IsErr(e) /\ missing ]
+  ELSE LET J == AbsI(e.out.post) IN
+  [ no_panic |-> TRUE,
+    missing_is_error |-> ~missing,
+    objective |-> J.obj = PPartial(I.obj, pv),
+    constraints |-> \A c \in I.active : c \in DOMAIN J.cons /\ J.cons[c].f = PPartial(I.cons[c].f, pv),
+    unchanged |-> /\ J.vars = I.vars /\ J.sense = I.sense /\ J.active = I.active /\ J.removed = I.removed /\ J.hints = I.hints
+                  /\ J.deps = I.deps /\ DOMAIN J.cons = DOMAIN I.cons
+                  /\ \A c \in DOMAIN I.cons \cap DOMAIN J.cons : J.cons[c].eq = I.cons[c].eq /\ J.cons[c].meta = I.cons[c].meta
+                  /\ \A c \in DOMAIN I.removed \cap DOMAIN J.cons : J.cons[c].f = I.cons[c].f,
+    recorded |-> e.out.post.params # <<>> /\ St(e.out.post.params[1]) = pv ]
+
+\* ---- C11 : QUBO / PUBO -----------------------------------------------------------------------------------
+BinaryIds(I) == { v \in DOMAIN I.vars : I.vars[v].kind = "binary" }
+DictPoly(d) == Canon([ i \in DOMAIN d |-> [ids |-> d[i].ids, c |-> d[i].c] ])
+StrictlyIncreasing(s) == \A i \in 1..(Len(s) - 1) : s[i] < s[i+1]
+MaxDistinct(p) == IF DOMAIN p = {} THEN 0 ELSE Max({ Cardinality(Range(m)) : m \in DOMAIN p })
+ClausesPubo(e) ==
+  LET raw == e.in.inst  I == AbsI(raw)
+      refuse == I.active # {} \/ I.sense = "max" \/ ~(FnIds(raw.objective) \subseteq BinaryIds(I)) IN
+  IF ~Ok(e) THEN [ no_panic |-> NoPanic(e), refusal_iff |-> IsErr(e) /\ refuse ]
+  ELSE LET d == e.out.dict  ids == Ids(I.obj) IN
+  [ no_panic |-> TRUE,
+    refusal_iff |-> ~refuse,
+    keys_canonical |-> /\ \A i \in DOMAIN d : StrictlyIncreasing(d[i].ids)
+                       /\ \A i, j \in DOMAIN d : d[i].ids = d[j].ids => i = j,
+    no_zero |-> \A i \in DOMAIN d : d[i].c # Zero,
+    reduce  |-> DictPoly(d) = BinaryReduce(I.obj),
+    all_assignments |-> Cardinality(ids) <= 12 =>
+        \A x \in [ids -> {Zero, One}] : PEval(DictPoly(d), x) = PEval(I.obj, x) ]
+ClausesQubo(e) ==
+  LET raw == e.in.inst  I == AbsI(raw)
+      refuse == I.active # {} \/ I.sense = "max" \/ ~(FnIds(raw.objective) \subseteq BinaryIds(I))
+                \/ (raw.objective # <<>> /\ \E i \in DOMAIN RawTerms(raw.objective[1]) :
+                      RawTerms(raw.objective[1])[i].c # Zero /\ Cardinality(Range(RawTerms(raw.objective[1])[i].ids)) > 2) IN
+  IF ~Ok(e) THEN [ no_panic |-> NoPanic(e), refusal_iff |-> IsErr(e) /\ refuse ]
+  ELSE LET d == e.out.dict  ids == Ids(I.obj)
+           q == Canon([ i \in DOMAIN d |-> [ids |-> d[i].ids, c |-> d[i].c] ] \o << [ids |-> <<>>, c |-> e.out.offset] >>) IN
+  [ no_panic |-> TRUE,
+    refusal_iff |-> ~refuse,
+    keys_canonical |-> /\ \A i \in DOMAIN d : Len(d[i].ids) = 2 /\ d[i].ids[1] <= d[i].ids[2]
+                       /\ \A i, j \in DOMAIN d : d[i].ids = d[j].ids => i = j,
+    no_zero |-> \A i \in DOMAIN d : d[i].c # Zero,
+    all_assignments |-> Cardinality(ids) <= 12 =>
+        \A x \in [ids -> {Zero, One}] : PEval(q, x) = PEval(I.obj, x) ]
+
+\* ---- C12 : log encoding ------------------------------------------------------------------------------------
+ClausesLogEncode(e) ==
+  LET pre == e.in.inst  v == e.in.vid  I == AbsI(pre)
+      known == v \in DOMAIN I.vars
+      var == I.vars[v]
+      isint == known /\ var.kind = "integer"
+      hasb == isint /\ var.bound # <<>>
+      b == var.bound[1]
+      finite == hasb /\ IsFin(b.lo) /\ IsFin(b.hi)
+      lo == RCeil(b.lo)  hi == RFloor(b.hi)
+      mustfail == ~known \/ ~isint \/ ~hasb \/ ~finite \/ lo > hi IN
+  IF ~NoPanic(e) THEN [ no_hang_no_panic |-> FALSE ]
+  ELSE IF ~Ok(e) THEN [ no_hang_no_panic |-> TRUE, error_iff |-> mustfail,
+                        instance_unchanged_on_error |-> HasPost(e) /\ e.out.post = pre ]
+  ELSE LET post == e.out.post  J == AbsI(post)  enc == e.out.enc
+           new == DOMAIN J.vars \ DOMAIN I.vars
+           p == Denote(enc)
+           lin == \A m \in DOMAIN p : Len(m) <= 1
+           coef(x) == IF <<x>> \in DOMAIN p THEN p[<<x>>] ELSE Zero
+           const == IF <<>> \in DOMAIN p THEN p[<<>>] ELSE Zero
+           ints == \A x \in new : coef(x)[2] = 1
+           cs == [ i \in 1..Cardinality(new) |-> coef(SetToSeq(new)[i])[1] ]
+           w == hi - lo IN
+  IF mustfail THEN [ no_hang_no_panic |-> TRUE, error_iff |-> FALSE ]
+  ELSE
+  [ no_hang_no_panic |-> TRUE, error_iff |-> TRUE,
+    constant_case |-> lo = hi => (new = {} /\ p = PConst(R(lo)) /\ J = I),
+    registered |-> /\ UniqueVarIds(post) /\ Len(post.vars) = Len(pre.vars) + Cardinality(new)
+                   /\ \A x \in DOMAIN I.vars : J.vars[x] = I.vars[x]
+                   /\ \A x \in new : /\ J.vars[x].kind = "binary" /\ J.vars[x].bound = << [lo |-> Zero, hi |-> One] >>
+                                     /\ J.vars[x].fixed = <<>>
+                                     /\ Len(J.vars[x].meta.subs) >= 1 /\ J.vars[x].meta.subs[1] = v
+                   /\ \A x, y \in new : J.vars[x].meta.subs = J.vars[y].meta.subs => x = y
+                   /\ [J EXCEPT !.vars = I.vars] = I,
+    uses_new_only |-> lin /\ Ids(p) \subseteq new,
+    covers |-> (lin /\ ints /\ const[2] = 1) =>
+        IF w <= 4096 /\ Cardinality(new) <= 13
+        THEN { const[1] + s : s \in SubsetSums(cs, {0}) } = lo..hi
+        ELSE const[1] = lo /\ CoversByCriterion(cs, w),
+    integral |-> lin /\ ints /\ const[2] = 1 ]
+
+\* ---- C13 : integer slack ---------------------------------------------------------------------------------------
+\* rows of the feasibility table recorded with the REAL evaluator: [x (state), s, r]
+XKey(x) == St(x)
+ClausesSlack(e, convert) ==
+  LET pre == e.in.inst  I == AbsI(pre)  c == e.in.cid
+      active == c \in I.active
+      con == I.cons[c]
+      hasf == active /\ ActiveCon(pre, c).f # <<>>
+      isle == active /\ con.eq = "le"
+      ids == IF hasf THEN MsgIds(ActiveCon(pre, c).f[1]) ELSE {}
+      kindsok == \A x \in ids : x \in DOMAIN I.vars /\ I.vars[x].kind \in {"integer", "binary"}
+      reject == ~active \/ ~isle \/ ~hasf \/ ~kindsok
+      pts == { St(e.in.points[i]) : i \in DOMAIN e.in.points }
+      fx(x) == PEval(con.f, x)
+      holds(x) == RLeq(fx(x), Zero)
+      everTrue == \E x \in pts : holds(x)
+      alwaysTrue == \A x \in pts : holds(x) IN
+  IF ~NoPanic(e) \/ ~HasPost(e) THEN [ no_panic |-> FALSE ]
+  ELSE IF reject THEN [ no_panic |-> TRUE, rejects |-> IsErr(e), unchanged_on_error |-> e.out.post = pre ]
+  ELSE LET post == e.out.post  J == AbsI(post)  new == DOMAIN J.vars \ DOMAIN I.vars IN
+  IF e.out.tag = "infeasible" THEN
+    [ no_panic |-> TRUE, never_true_is_infeasible_error |-> ~everTrue, unchanged_on_error |-> post = pre ]
+  ELSE IF IsErr(e) THEN
+    \* the only remaining legal error: slack range above the caller's limit (convert).  W is the width given by the
+    \* natural interval extension of a*f; any analysis at least as tight rejects only if W exceeds the limit.
+    LET a == ContentFactor({ con.f[m] : m \in DOMAIN con.f })
+        h == NatHull(PScale(con.f, a), [ x \in DOMAIN I.vars |-> EffBound(I.vars[x]) ]) IN
+    [ no_panic |-> TRUE,
+      rejects |-> convert /\ (~IsFin(h.lo) \/ RLess(R(e.in.max), RNeg(h.lo))),
+      unchanged_on_error |-> post = pre ]
+  ELSE IF new = {} THEN
+    \* moved to the removed constraints unchanged: only legal if the inequality holds on the whole box
+    [ no_panic |-> TRUE,
+      always_true_moved_unchanged |-> c \in DOMAIN J.removed /\ alwaysTrue /\ J = Relax(I, c, J.removed[c].reason, J.removed[c].rparams) ]
+  ELSE LET s == CHOOSE x \in new : TRUE  sv == J.vars[s]
+           rows == e.out.table
+           U == IF sv.bound # <<>> /\ IsFin(sv.bound[1].hi) THEN RFloor(sv.bound[1].hi) ELSE -1
+           rowsOf(x) == { i \in DOMAIN rows : St(rows[i].x) = x }
+           feas(i) == rows[i].r.tag = "ok" /\ rows[i].r.feasible IN
+  [ no_panic |-> TRUE,
+    slack_var |-> /\ Cardinality(new) = 1 /\ sv.kind = "integer" /\ sv.bound # <<>> /\ sv.bound[1].lo = Zero
+                  /\ IsFin(sv.bound[1].hi) /\ sv.bound[1].hi[2] = 1 /\ U >= 0 /\ sv.meta.subs = <<c>> /\ sv.fixed = <<>>
+                  /\ (~convert => U = e.in.ub) /\ (convert => U <= e.in.max),
+    equality_kind |-> c \in J.active /\ J.cons[c].eq = (IF convert THEN "eq" ELSE "le") /\ J.cons[c].meta = con.meta,
+    table_complete |-> \A x \in pts : { rows[i].s : i \in rowsOf(x) } = { R(k) : k \in 0..U },
+    projection |-> \A x \in pts : holds(x) <=> \E i \in rowsOf(x) : feas(i),
+    function_kept |-> c \in DOMAIN J.cons /\ [ m \in DOMAIN J.cons[c].f \ {<<s>>} |-> J.cons[c].f[m] ] = con.f
+                                          /\ \A m \in DOMAIN J.cons[c].f : s \in Range(m) => m = <<s>>,
+    reported_b |-> convert \/ (e.out.b # <<>> /\ e.out.b_is_slack_coef),
+    others_unchanged |-> /\ \A x \in DOMAIN I.vars : x \in DOMAIN J.vars /\ J.vars[x] = I.vars[x]
+                         /\ \A k \in DOMAIN I.cons \ {c} : k \in DOMAIN J.cons /\ J.cons[k] = I.cons[k]
+                         /\ J.obj = I.obj /\ J.removed = I.removed /\ J.active = I.active /\ J.sense = I.sense ]
+
+\* ---- C06 : sample sets ------------------------------------------------------------------------------------------------
+SampleIds(samples) == UNION { SeqToSet(samples[i].ids) : i \in DOMAIN samples }
+StateOfSample(samples, s) == St(samples[CHOOSE i \in DOMAIN samples : s \in SeqToSet(samples[i].ids)].state[1])
+ClausesSamples(e) ==
+  LET raw == e.in.inst  S == e.in.samples  sids == SampleIds(S)
+      allIn == \A s \in sids : ~SolRejects(raw, StateOfSample(S, s)) IN
+  IF ~ValidInst(raw) \/ ~allIn THEN [ no_panic |-> NoPanic(e) ]     \* quantified over states the solo path accepts
+  ELSE IF ~Ok(e) THEN [ no_panic |-> NoPanic(e), no_error |-> FALSE ]
+  ELSE LET ss == e.out.ss  gets == e.out.gets
+           keys(m) == PairIds(m)
+           want(s) == SolOf(raw, StateOfSample(S, s))
+           I == AbsI(raw)
+           okget(i) == gets[i].r.tag = "ok"
+           got(i) == SolSeen(gets[i].r.sol) IN
+  [ no_panic |-> TRUE,
+    keys |-> /\ ss.objectives # <<>> /\ DOMAIN SvFun(ss.objectives[1]) = sids
+             /\ keys(ss.feasible) = sids /\ keys(ss.feasible_relaxed) = sids
+             /\ { gets[i].sid : i \in DOMAIN gets } = sids,
+    get_ok |-> \A i \in DOMAIN gets : okget(i),
+    objective |-> \A i \in DOMAIN gets : okget(i) => got(i).objective = want(gets[i].sid).objective,
+    constraints |-> \A i \in DOMAIN gets : okget(i) => (got(i).cons = want(gets[i].sid).cons /\ got(i).ncons = Cardinality(want(gets[i].sid).cons)),
+    flags |-> \A i \in DOMAIN gets : okget(i) => (got(i).relaxed = << want(gets[i].sid).relaxed >> /\ got(i).feasible = want(gets[i].sid).feasible),
+    values |-> \A i \in DOMAIN gets : okget(i) =>
+                 (gets[i].r.sol.state # <<>> /\ \A v \in DOMAIN I.vars : v \in DOMAIN got(i).state /\ got(i).state[v] = want(gets[i].sid).state[v]),
+    tables |-> /\ \A s \in sids \cap keys(ss.feasible) \cap keys(ss.feasible_relaxed) :
+                     BoolMap(ss.feasible)[s] = want(s).feasible /\ BoolMap(ss.feasible_relaxed)[s] = want(s).relaxed
+               /\ ss.objectives # <<>> /\ \A s \in sids \cap DOMAIN SvFun(ss.objectives[1]) : SvFun(ss.objectives[1])[s] = want(s).objective,
+    agrees_with_solo |-> \A i \in DOMAIN e.out.solo : e.out.solo[i].r.tag = "ok" ]
+
+ClausesUsedIds(e) ==
+  LET raw == e.in.inst IN
+  IF ~Ok(e) THEN [ no_panic |-> NoPanic(e) ]
+  ELSE [ no_panic |-> TRUE,
+         used |-> SeqToSet(e.out.used) = UsedRaw(raw), defined |-> SeqToSet(e.out.defined) = VarIds(raw),
+         cids |-> SeqToSet(e.out.cids) = ActiveIds(raw), rcids |-> SeqToSet(e.out.rcids) = RemovedIds(raw),
+         binary |-> SeqToSet(e.out.binary) = { v \in VarIds(raw) : VarOf(raw, v).kind = "binary" } ]
+
+ClausesInst(e) ==
+  CASE e.ev = "evaluate" -> ClausesEvaluate(e)
+    [] e.ev = "inst_partial" -> ClausesInstPartial(e)
+    [] e.ev = "commute" -> ClausesCommute(e)
+    [] e.ev = "inst_subst" -> ClausesInstSubst(e)
+    [] e.ev = "deps_order" -> ClausesDepsOrder(e)
+    [] e.ev = "relax" -> ClausesRelax(e)
+    [] e.ev = "restore" -> ClausesRestore(e)
+    [] e.ev = "as_min" -> ClausesAsMin(e)
+    [] e.ev = "best" -> ClausesBest(e)
+    [] e.ev = "penalty" -> ClausesPenalty(e)
+    [] e.ev = "uniform_penalty" -> ClausesUniformPenalty(e)
+    [] e.ev = "to_parametric" -> ClausesToParametric(e)
+    [] e.ev = "with_parameters" -> ClausesWithParameters(e)
+    [] e.ev = "pubo" -> ClausesPubo(e)
+    [] e.ev = "qubo" -> ClausesQubo(e)
+    [] e.ev = "log_encode" -> ClausesLogEncode(e)
+    [] e.ev = "slack_convert" -> ClausesSlack(e, TRUE)
+    [] e.ev = "slack_add" -> ClausesSlack(e, FALSE)
+    [] e.ev = "evaluate_samples" -> ClausesSamples(e)
+    [] e.ev = "used_ids" -> ClausesUsedIds(e)
 =============================================================================
